@@ -65,7 +65,16 @@ func (rv *respValue) serializeBlobErrorString(sb *strings.Builder, data respBlob
 }
 
 func (rv *respValue) serializeSimpleString(sb *strings.Builder, data string) {
-	sb.WriteString(fmt.Sprintf("%s\r\n", data))
+	// a simple or error string ends at the first CR LF: text that quotes
+	// client input must not carry line breaks into the frame (Redis maps
+	// them to spaces as well)
+	text := []byte(data)
+	for i, c := range text {
+		if c == '\r' || c == '\n' {
+			text[i] = ' '
+		}
+	}
+	sb.WriteString(fmt.Sprintf("%s\r\n", text))
 }
 
 func (rv *respValue) serializeInt(sb *strings.Builder, data respInt) {
